@@ -39,7 +39,7 @@ theorem exBool_compile (tol : Ext K) (n : Nat) :
       (exBool : Model (Ext K)).domain).variableBounds)
     (((Analyzer.analyze (exBool : Model (Ext K)).domain (exBool : Model (Ext K)).constraints tol n).enforceable
       (exBool : Model (Ext K)).domain).applyToDomain (exBool : Model (Ext K)).domain)
-  refine ⟨lm, (compile_ok_iff _ _ _ _).mpr ⟨_, ?_, h⟩⟩
+  refine ⟨lm, (compile_ok_iff _ _ _ _).mpr ⟨scratchOK_of_fragCheck _ _ (by simp [fragCheck, exBool, frag, fragList]), _, ?_, h⟩⟩
   simp [pipelineAnalyzer, exBool_normalized]
 
 theorem exBool_frag : FragModel true (exBool : Model (Ext K)) (exBool : Model (Ext K)).domain := by
